@@ -935,6 +935,40 @@ static void desc(const std::string &d) {
   printf("\n");
 }
 static void outs(const char *w, int k, const std::string &s) { printf("%s %ld %d", w, sid, k); pr_bytes(s); printf("\n"); }
+
+/* ---- the same statements as `cxx_io_*` op lines for the Lean stream model (lean/Mpir/Model/CxxIo.lean, Ops/CxxIo.lean) ---- */
+static long io_flagnum(const std::ios &s) {
+  std::ios::fmtflags f = s.flags(); long n = 0;
+  if (f & std::ios::dec) n |= 0x1; if (f & std::ios::oct) n |= 0x2; if (f & std::ios::hex) n |= 0x4; if (f & std::ios::showbase) n |= 0x8;
+  if (f & std::ios::showpos) n |= 0x10; if (f & std::ios::uppercase) n |= 0x20; if (f & std::ios::left) n |= 0x40; if (f & std::ios::right) n |= 0x80;
+  if (f & std::ios::internal) n |= 0x100; if (f & std::ios::fixed) n |= 0x200; if (f & std::ios::scientific) n |= 0x400; if (f & std::ios::showpoint) n |= 0x800;
+  if (f & std::ios::skipws) n |= 0x1000;
+  return n;
+}
+static long io_statenum(const std::ios &s) {
+  std::ios::iostate r = s.rdstate(); return ((r & std::ios::eofbit) ? 1 : 0) + ((r & std::ios::failbit) ? 2 : 0) + ((r & std::ios::badbit) ? 4 : 0);
+}
+static void io_prl(long v) { if (v < 0) printf("-%lx", -(unsigned long) v); else printf("%lx", (unsigned long) v); }
+struct IoOut { long flags, state, width, fill, prec; };
+static IoOut io_before(std::ostringstream &os) { IoOut b = { io_flagnum(os), io_statenum(os), (long) os.width(), (long) (unsigned char) os.fill(), (long) os.precision() }; return b; }
+static void io_op_out_head(const char *op, int k, const IoOut &b) {
+  printf("op %ld %d %s %lx %lx ", sid, k, op, (unsigned long) b.flags, (unsigned long) b.state); io_prl(b.width); printf(" %lx ", (unsigned long) b.fill); io_prl(b.prec);
+}
+static void io_op_out_tail(std::ostringstream &os) { printf(" =>"); pr_bytes(os.str()); printf(" "); io_prl((long) os.width()); printf(" %lx\n", (unsigned long) io_statenum(os)); }
+static void io_op_out_z(int k, const IoOut &b, mpz_srcptr v, std::ostringstream &os) { io_op_out_head("cxx_io_out_z", k, b); pr_z(v); io_op_out_tail(os); }
+static void io_op_out_q(int k, const IoOut &b, mpq_srcptr v, std::ostringstream &os) { io_op_out_head("cxx_io_out_q", k, b); pr_q(v); io_op_out_tail(os); }
+static void io_op_out_f(int k, const IoOut &b, mpf_srcptr f, std::ostringstream &os) {
+  long n = f->_mp_size < 0 ? -(long) f->_mp_size : f->_mp_size;
+  const mp_limb_t *p = f->_mp_d; long m = n; while (m > 0 && p[0] == 0) { p++; m--; }
+  if (m > 2 || (b.flags & 7) == 4 || (b.flags & 7) == 2) return;          /* the decimal %F model: mantissas of at most two limbs */
+  io_op_out_head("cxx_io_out_f", k, b); printf(" %lx ", (unsigned long) ((f->_mp_prec - 1) * 64)); io_prl(n ? f->_mp_exp : 0); printf(" "); io_prl(f->_mp_size); printf(" [");
+  for (long i = 0; i < n; i++) printf("%s%lx", i ? "," : "", (unsigned long) f->_mp_d[i]);
+  printf("]"); io_op_out_tail(os);
+}
+static void io_op_in_tail(std::istringstream &is) {
+  long st = io_statenum(is); long pos = (long) is.rdbuf()->pubseekoff(0, std::ios::cur, std::ios::in); int nx = is.rdbuf()->sgetc();
+  printf(" %lx %lx ", (unsigned long) st, (unsigned long) pos); io_prl(nx == std::char_traits<char>::eof() ? -1 : (long) (unsigned char) nx); printf("\n");
+}
 struct Fl { int base, showbase, showpos, upper, adj, width; char fill; int multi; };   /* multi: 0 = one basefield bit; 1 dec|hex, 2 hex|oct, 3 dec|oct|hex, 4 no bit: the standard says decimal */
 static void apply(std::ios &o, const Fl &f) {
   o.setf(f.base == 16 ? std::ios::hex : f.base == 8 ? std::ios::oct : std::ios::dec, std::ios::basefield);
@@ -995,8 +1029,10 @@ static void io_ostream(const VS *vs, int nvs, int full) {
       desc(std::string(ty == 0 ? "os << Z[0]; " : ty == 1 ? "os << Q[0]; " : "os << (Z[0] * Z[1] - Z[2]); ") + fdesc(f));
       if (want()) for (int k = 0; k < nvs; k++) {
         setenv_vs(&vs[k]);
-        std::ostringstream os; apply(os, f);
+        std::ostringstream os; apply(os, f); IoOut iob = io_before(os);
         if (ty == 0) os << Z[0]; else if (ty == 1) os << Q[0]; else os << (Z[0] * Z[1] - Z[2]);
+        if (ty == 0) io_op_out_z(k, iob, Zc[0], os); else if (ty == 1) io_op_out_q(k, iob, Qc[0], os);
+        else { mpz_mul(TZ[1], Zc[0], Zc[1]); mpz_sub(TZ[2], TZ[1], Zc[2]); io_op_out_z(k, iob, TZ[2], os); }
         std::string r = os.str(); if (os.width() != 0) r += "<width not reset>"; if (!os.good()) r += "<stream not good>";
         outs("cxx", k, r);
         if (ty == 2) { mpz_mul(TZ[1], Zc[0], Zc[1]); mpz_sub(TZ[2], TZ[1], Zc[2]); }
@@ -1019,7 +1055,7 @@ static void io_ostream_f(const VS *vs, int nvs) {
       std::ostringstream os; if (ff == 1) os.setf(std::ios::fixed, std::ios::floatfield); if (ff == 2) os.setf(std::ios::scientific, std::ios::floatfield);
       if (spt) os.setf(std::ios::showpoint); if (sp) os.setf(std::ios::showpos); if (up) os.setf(std::ios::uppercase);
       os.setf(adj == 1 ? std::ios::left : std::ios::right, std::ios::adjustfield); os.width(widths[wi]); os.precision(precs[pi]);
-      os << F[0]; outs("cxx", k, os.str());
+      IoOut iob = io_before(os); os << F[0]; io_op_out_f(k, iob, Fc[0], os); outs("cxx", k, os.str());
       char *r = NULL; gmp_asprintf(&r, fmt, precs[pi], Fc[0]); outs("cref", k, r); free(r);
     }
     sid++;
@@ -1248,7 +1284,10 @@ static void io_istream2(const InRow *ic, int n, int ty) {
       std::istringstream is(c.text); is.setf(c.base == 16 ? std::ios::hex : c.base == 8 ? std::ios::oct : c.base == 10 ? std::ios::dec : std::ios::fmtflags(0), std::ios::basefield);
       if (!c.skipws) is.unsetf(std::ios::skipws);
       mpz_set_si(Z[0].get_mpz_t(), 99); mpq_set_si(Q[0].get_mpq_t(), 99, 7);
+      long iofl = io_flagnum(is);
       if (ty == 0) is >> Z[0]; else is >> Q[0];
+      printf("op %ld 0 %s %lx 0", sid, ty == 0 ? "cxx_io_in_z" : "cxx_io_in_q", (unsigned long) iofl); pr_bytes(c.text); printf(ty == 0 ? " 63 =>" : " 63 7 =>");
+      if (ty == 0) pr_z(Z[0].get_mpz_t()); else pr_q(Q[0].get_mpq_t()); io_op_in_tail(is);
       int fail = is.fail(); int nx = -1; if (!fail) { is.clear(); nx = is.get(); }
       std::string r = "fail=" + std::to_string(fail) + " next=" + std::to_string(nx) + " ";
       if (!fail) r += ty == 0 ? zhex(Z[0].get_mpz_t()) : qhex(Q[0].get_mpq_t());
